@@ -383,9 +383,38 @@ def check_conditioning(ctx, fi, be):
     if not ok and (Pn.startswith(used + '&') or Pn.startswith(used + '.intersection(')) and 'set.union(' not in Pn:
         # the generated columns intersected with ONE clique picked by some criterion: whether that clique always contains every generated
         # neighbour of the column is a property of the junction tree, not of this code's shape
-        raise AnalysisError('synthetic_data: the conditioning set `%s` is the generated columns within one chosen clique; whether that clique '
+        import re
+        body_ = Pn[len(used) + 1:] if Pn.startswith(used + '&') else Pn[len(used) + len('.intersection('):-1]
+        m_ = re.fullmatch(r'(max|min)\(\[(\w+)for\2in(.+?)if%sin\2\],key=lambda(\w+):(.+)\)' % re.escape(col), body_)
+        if m_ and (m_.group(3) == cl_t.replace(' ', '') or m_.group(3) == 'cliques') and cl_t.replace(' ', '') in ('[set(cl)forclinself.cliques]', 'cliques'):
+            how, v_, key = m_.group(1), m_.group(4), m_.group(5)
+            overlap = key in ('len(%s&%s)' % (v_, used), 'len(%s&%s)' % (used, v_), 'len(%s.intersection(%s))' % (v_, used),
+                              'len(%s.intersection(%s))' % (used, v_))
+            remainder = key in ('len(%s-%s)' % (v_, used), 'len(%s.difference(%s))' % (v_, used))
+            if how == 'max' and overlap:
+                # lemma (perfect elimination order, decided for the constructor by elimination-fill-in): the generated neighbours of the
+                # column form a clique with it, so some maximal clique K* contains them all; for any clique K containing the column
+                # K & used is a subset of those neighbours, hence |K & used| is maximal exactly when K & used is all of them
+                ctx.ob('conditioning', fi, loop, True,
+                       'the conditioning set is the generated columns within the clique (containing %s) of LARGEST overlap with the generated '
+                       'columns: by the elimination-order lemma that overlap is the full set of generated neighbours' % col, construct='conditioning set')
+                ok = None
+            elif (how == 'min' and remainder) or (how == 'min' and overlap) or (how == 'max' and remainder):
+                ctx.ob('conditioning', fi, loop, False,
+                       'the conditioning set is the generated columns within ONE clique chosen by `%s(.., key=%s)`: only the clique of largest '
+                       'overlap with the generated columns is guaranteed to contain every generated neighbour of %s; a clique with the fewest '
+                       'ungenerated attributes can be a small one that misses some of them, so dependencies are dropped' % (how, key, col),
+                       construct='conditioning set')
+                ok = None
+            else:
+                raise AnalysisError('synthetic_data: clique chosen by `%s(.., key=%s)`: not a recognised criterion' % (how, key))
+        else:
+            ok = False
+        if ok is False:
+            raise AnalysisError('synthetic_data: the conditioning set `%s` is the generated columns within one chosen clique; whether that clique '
                             'covers every generated neighbour of `%s` is neither confirmed nor refuted by this analysis' % (P[:120], col))
-    ctx.ob('conditioning', fi, loop, ok,
+    if ok is not None:
+        ctx.ob('conditioning', fi, loop, ok,
            'a column is generated conditionally on the already generated columns sharing a model clique with it: expected '
            'tuple(%s & union of the cliques containing %s); conditions on `%s`' % (used, col, P[:160]), construct='conditioning set')
     init = be.inits.get(used)
